@@ -38,3 +38,20 @@ Definition q_issym_impls_agree (T : dense Qc) (G : list (list nat)) : bool :=
   Bool.eqb (impl_issym_new Qc_eq_bool (dshape T) (qden T) G) b && Bool.eqb (impl_issym_old Qc_eq_bool (dshape T) (qden T) G) b.
 (* a Kruskal tensor is symmetric in all modes (its denoted array passes the spec test on the single group of all modes) *)
 Definition q_k_symmetric (s : shape) (K : ktensor Qc) : bool := spec_issym Qc_eq_bool s (qden_k K) [seq 0 (length s)].
+
+(* ---- wave 3: the body of ktensor.symmetrize (Model/C15K.v) over Qc with the exact test "x < 0" ---- *)
+From PV Require Import Model.C15K.
+Definition q_neg15 (x : Qc) : bool := negb (qleb q0 x).
+Definition q_k15_core (K1 : ktensor Qc) : ktensor Qc := k15_core q0 q1 Qcplus Qcmult Qcopp Qcinv q_neg15 K1.
+(* pyttb's symmetrised Kruskal tensor O is (weights and factors, within the float tolerance) the model applied to
+   the OBSERVED result K1 of pyttb's own normalize("all") on a copy of the input *)
+Definition q_k15_matches (K1 O : ktensor Qc) : bool :=
+  let M := q_k15_core K1 in
+  qvec_close tol9 (kweights O) (kweights M) && list_eqb (list_eqb (qvec_close tol9)) (kfactors O) (kfactors M).
+(* the hypothesis of theorem C15_ksym_keeps on the observed normalised tensor: every factor is, column by column, factor 0 up
+   to a sign *)
+Definition q_k15_signed_copies (K1 : ktensor Qc) : bool :=
+  match kfactors K1 with
+  | [] => false
+  | A0 :: _ => forallb (signed_copyb q0 q1 Qcmult Qcopp (fun a b => qclose tol9 a b) A0 (nrows A0) (krank K1)) (kfactors K1)
+  end.
